@@ -94,18 +94,21 @@ def monitor(ops, outs, pid):
     sm_active = False          # server has sent <enabled/> or <resumed/> on this connection
     pending_r = 0
     rxbuf = b""
+    success_seen = False
+    kind = ctype0 = "c"
     # scripts that answer requests the client could not write yet (transport blocked) are not
     # evidence about what the client had sent
     blocked = any(o.startswith("wr ") and o != "wr all" for o in ops)
     for i, (op, out) in enumerate(zip(ops, outs)):
         t = op.split(" ")
+        success_now = False
         ln = parse_line(out)
         if ln is None:
             continue
         if t[0] == "new":
             jid = unhx(t[1]) or b""
             flags = int(t[3]) if ln["res"] == "rc 0" else 0
-            ctype = t[4]
+            ctype = ctype0 = t[4]
             cert = t[5] == "1"
             off.reset()
             conn_open = False
@@ -123,6 +126,9 @@ def monitor(ops, outs, pid):
                 if m.group(1) == "0" and ln["st"] != "d":
                     fails.append((i, "flags-accepted-while-not-disconnected"))
         if t[0] == "connect" and ln["res"] == "rc 0":
+            kind = t[1] if len(t) > 1 else ctype0
+            ctype = kind
+            success_seen = False
             off.reset()
             conn_open = True
             connected_ev = disc_ev = 0
@@ -135,17 +141,19 @@ def monitor(ops, outs, pid):
             data = unhx(t[1]) or b""
             off.feed(data)
             rxbuf += data
+            if b"<success" in rxbuf and b"xmpp-sasl" in rxbuf:
+                success_now = True      # (an op writes before it reads)
             # complete top-level elements the server sent (coarse scan, enough for counting)
             for m in re.finditer(rb"<(message|presence|iq|foo)\b[^>]*?(/>|>.*?</\1>)", rxbuf, re.S):
                 pass
-        # ---- what the client wrote during this op
+        # ---- what the client wrote during this op (before it read)
         for item in ln["tx"]:
-            kind = item.split("/")[0]
+            kind_ = item.split("/")[0]
             sec = item.endswith("/s")
-            k = kind.split(":")
+            k = kind_.split(":")
             if pid == "C02":
                 if flags & F_MANDATORY_TLS and k[0] in ("auth", "response", "legacy") and k[-1] == "1" and not sec:
-                    fails.append((i, "auth-data-before-tls %s" % kind[:40]))
+                    fails.append((i, "auth-data-before-tls %s" % kind_[:40]))
                 if flags & F_DISABLE_TLS and k[0] == "starttls":
                     fails.append((i, "starttls-although-disabled"))
                 if k[0] == "auth" and k[1] == "PLAIN":
@@ -159,6 +167,8 @@ def monitor(ops, outs, pid):
                     fails.append((i, "starttls-not-offered"))
                 if k[0] == "auth" and k[1].upper() not in off.mechs:
                     fails.append((i, "mechanism-not-offered %s" % k[1]))
+                if k[0] in ("auth", "response") and success_seen and not blocked:
+                    fails.append((i, "auth-after-success %s" % kind_[:30]))
                 if k[0] == "compress" and not off.compression:
                     fails.append((i, "compress-not-offered"))
                 if k[0] == "bind" and not off.bind:
@@ -182,7 +192,7 @@ def monitor(ops, outs, pid):
                     if k[1] != want:
                         fails.append((i, "bind-resource-mismatch"))
                 if k[0] == "user" and not connected_ev:
-                    fails.append((i, "user-stanza-on-wire-before-connected %s" % kind[:40]))
+                    fails.append((i, "user-stanza-on-wire-before-connected %s" % kind_[:40]))
                 # RFC 6120 order
                 order = {"starttls": 1, "auth": 2, "response": 2, "compress": 3, "resume": 4, "bind": 4, "session": 5,
                          "enable": 6}
@@ -196,10 +206,14 @@ def monitor(ops, outs, pid):
                 bind_or_resume = True
             if k[0] == "handshake":
                 handshake_seen = True
+        if success_now:
+            success_seen = True
         # ---- notifications
         for e in ln["ev"]:
             if e in ("CONNECT", "RAW"):
                 connected_ev += 1
+                if pid in ("C03", "C13") and (e == "RAW") != (kind == "r"):
+                    fails.append((i, "raw-on-nonraw" if e == "RAW" else "connect-on-raw"))
                 if pid in ("C03", "C13") and connected_ev > 1:
                     fails.append((i, "connected-twice"))
                 if pid == "C13" and disc_ev:
